@@ -27,7 +27,75 @@ def plan(tier):
     return {'cases': 120000, 'chunk': 500, 'budget_s': 70, 'case_timeout_s': 20, 'minimise_budget_s': 60}
 
 
+BIG_EVERY = 1500          # one case in this many is a long contiguous run around a power-of-two size
+
+
+def gen_big(rng, index, tier):
+    """an image whose ONE contiguous run of explicitly stored words is a little longer than a power of two (page size,
+    2^16, 2^20, 2^22 = half the default flat window; 2^23 = the default flat window in the thorough tier) with the
+    executed ops sitting across that size: op 0 jumps over the zero bulk into a short generated tail. Stored compactly
+    (length + non-zero words) and materialised in the worker."""
+    w = rng.choice([32, 64])
+    ww = w.bit_length() - 1
+    sizes = [1 << 14, 1 << 16, 1 << 16, 1 << 20]
+    if (index // BIG_EVERY) % 8 == 1:
+        sizes = [1 << 22]
+    if tier == 'thorough' and (index // BIG_EVERY) % 64 == 3:
+        sizes = [1 << 23]
+    B_ = rng.choice(sizes)
+    T = B_ + rng.choice([-6, -4, -2, 0, 2, 8])           # word address of the first tail op
+    n = rng.randint(4, 12)
+    nz = {}
+    bits = []
+    nz[0], nz[1] = rng.choice([0, 2 * w, (B_ - 1) << ww, B_ << ww]) + rng.randrange(w), T << ww
+    for i in range(n):
+        a = T + 2 * i
+        k = rng.random()
+        if k < 0.6:
+            f = 2 * w + rng.randrange(2)                 # an output bit
+        elif k < 0.8:
+            f = ((T + 2 * rng.randrange(i + 1, n + 1)) << ww) + rng.randrange(1, ww)    # a later op's flip word (low bits)
+        else:
+            f = (rng.choice([B_ - 3, B_ - 1, B_, B_ + 1, T + 2 * n + 3]) << ww) + rng.randrange(w)
+        nz[a], nz[a + 1] = f, (a + 2) << ww
+    halt = T + 2 * n
+    nz[halt], nz[halt + 1] = ((halt + 4) << ww) + rng.randrange(w), halt << ww
+    L = halt + 2 + rng.choice([0, 2, 6, 20])             # whole ops: the reader refuses an odd data length
+    nz = {a: v for a, v in nz.items() if v and a < L}
+    seg_len = L + rng.choice([0, 0, 5, 3000])
+    seg_len += seg_len & 1                                # the writer wants whole ops
+    case = {'w': w, 'segments': [{'start': 0, 'length': seg_len, 'data': [],
+                                  'data_rle': {'len': L, 'nz': sorted(nz.items())}}],
+            'version': rng.choice([0, 1, 1, 2, 3]), 'lzma_preset': 0, 'file_order': 'asc', 'input_bits': [],
+            'fault': None, 'probe_words': sorted(set([0, 1, B_ - 1, B_, B_ + 1, T, T + 1, halt, halt + 1, L - 1])),
+            'tags': ['big_run', 'big_run_2^%d' % (B_.bit_length() - 1)], 'kind': 'big'}
+    case['probe_words'] = [a for a in case['probe_words'] if 0 <= a < L]
+    case['configs'] = [{'engine': 'native', 'probe': 'touched'}, {'engine': 'fast', 'probe': 'touched'},
+                       {'engine': 'native', 'probe': 'touched', 'last_ops': 4}]
+    if B_ <= 1 << 20:
+        case['configs'] += [{'engine': 'featured', 'probe': 'touched'},
+                            {'engine': 'native', 'probe': 'touched', 'flat_max_words': B_ + rng.choice([-1, 0, 1])}]
+    return case
+
+
+def materialise(case):
+    if not any('data_rle' in s for s in case['segments']):
+        return case
+    full = dict(case, segments=[])
+    for s in case['segments']:
+        s2 = {k: v for k, v in s.items() if k != 'data_rle'}
+        if 'data_rle' in s:
+            data = [0] * s['data_rle']['len']
+            for a, v in s['data_rle']['nz']:
+                data[a] = v
+            s2['data'] = data
+        full['segments'].append(s2)
+    return full
+
+
 def gen(rng, index, tier):
+    if index % BIG_EVERY == 700:
+        return gen_big(rng, index, tier)
     case, meta = G.gen_case(rng, 'c01')
     case['tags'] = meta['tags']
     m, obs = enginesim.pre_run(rng, case)
@@ -45,12 +113,23 @@ def gen(rng, index, tier):
 
 
 def run(case):
-    violations, info = enginesim.evaluate(case, FIELDS)
+    full = materialise(case)
+    violations, info = enginesim.evaluate(full, FIELDS)
     exp = next(iter(info['expected'].values()))
-    return B.result_from(case, violations, info, exp, info['model'])
+    res = B.result_from(case, violations, info, exp, info['model'])
+    if full is not case:
+        # the compact form has no data list: the flag for reserved (never stored) zero words would be wrong here
+        res['probes'].pop('lazy_zero_touch', None)
+        res['states'] = {st.replace('lazy_zero_touch', 'big_run') for st in res['states']}
+        for t in case['tags']:
+            res['probes'][t] = 1
+    return res
 
 
 def minimise(case, violation):
+    if case.get('kind') == 'big':
+        c = dict(case, configs=[violation['config']])
+        return c, violation
     return enginesim.minimise(case, violation, FIELDS)
 
 
